@@ -75,6 +75,18 @@ class Ctx:
 
 # ------------------------------------------------------------------ known findings
 
+def enclosing_statement(vfile, line):
+    """'theorem NAME in ' for the Theorem/Lemma/... whose statement or proof contains that line of the .v file"""
+    try:
+        lines = open(os.path.join(COQ, vfile)).read().split("\n")
+        for i in range(min(int(line), len(lines)) - 1, -1, -1):
+            m = re.match(r'\s*(Theorem|Lemma|Corollary|Example|Fact|Remark|Definition|Fixpoint)\s+([A-Za-z0-9_\']+)', lines[i])
+            if m:
+                return "%s %s in " % (m.group(1).lower(), m.group(2))
+    except Exception:
+        pass
+    return ""
+
 def side_mine(ctx, s):
     """is this side observation of the harness one of this property's? (cfg side: one label or several)"""
     lab = ctx.cfg.get("side", "~")
@@ -327,7 +339,8 @@ def finish(ctx, coverage, assumptions, proof=None):
         broken = None
         failed = [ff for ff in (ctx.build.status.get("coq_failed_all") or []) if ff[0] in proof.get("cone", [])]
         if failed:
-            broken = "proof obligation no longer checks: %s line %s (in the dependency cone of %s)" % (failed[0][0], failed[0][1], proof["theorem_file"])
+            broken = "proof obligation no longer checks: %s%s line %s (in the dependency cone of %s)" % (
+                enclosing_statement(failed[0][0], failed[0][1]), failed[0][0], failed[0][1], proof["theorem_file"])
         elif proof.get("stale"):
             broken = "compiled proof missing or older than its source for %s (in the dependency cone of %s)" % (proof["stale"][:3], proof["theorem_file"])
         elif not ctx.build.status.get("coq_ok") and not ctx.build.status.get("coq_failed_all"):
